@@ -15,6 +15,8 @@ using namespace tulz;
 
 namespace {
 struct NearEq { float eps = 0.5f; bool operator()(const float &a, const float &b) const { return std::fabs(a - b) <= eps; } };
+// an equality coarser than one increment step: integers in the same bucket of four compare equal
+struct BucketEq { bool operator()(const int &a, const int &b) const { auto fl = [](int v) { return v >= 0 ? v / 4 : -((-v + 3) / 4); }; return fl(a) == fl(b); } };
 
 enum OpKind { ASSIGN, ADD, SUB, MUL, DIV, PREINC, POSTINC, PREDEC, POSTDEC, APPLY_ID, APPLY_SET, APPLY_ADD, SUBSCRIBE, UNSUBSCRIBE, NKINDS };
 const char *kname[] = {"assign", "add", "sub", "mul", "div", "preinc", "postinc", "predec", "postdec", "applyid", "applyset", "applyadd", "subscribe", "unsubscribe"};
@@ -49,6 +51,32 @@ struct FloatDom {
     static std::vector<T> initials() { return {0.0f, 1.0f}; }
     static Eq eq() { return NearEq{0.5f}; }
     static bool in_bounds(const T &v) { return std::fabs(v) <= 64.0f && std::fabs(v * 64.0f) == std::floor(std::fabs(v * 64.0f)); }   // keeps float arithmetic exact
+    static bool can_div(const T &v) { return v != 0.0f; }
+};
+// tolerance wider than one ++/-- step: "increment and decrement always notify" is only observable with such a comparator
+struct WideFloatDom {
+    using T = float; using Eq = NearEq; static constexpr const char *name = "widefloat"; static constexpr bool arithmetic = true, default_eq = false;
+    static std::vector<T> values() { return {0.25f, 1.0f, -1.0f, 2.0f, 4.0f}; }
+    static std::vector<T> initials() { return {0.0f, 1.0f}; }
+    static Eq eq() { return NearEq{1.5f}; }
+    static bool in_bounds(const T &v) { return FloatDom::in_bounds(v); }
+    static bool can_div(const T &v) { return v != 0.0f; }
+};
+struct BucketDom {
+    using T = int; using Eq = BucketEq; static constexpr const char *name = "bucketint"; static constexpr bool arithmetic = true, default_eq = false;
+    static std::vector<T> values() { return {-2, -1, 0, 1, 2, 5}; }
+    static std::vector<T> initials() { return {0, 3, -1}; }
+    static Eq eq() { return {}; }
+    static bool in_bounds(const T &v) { return v >= -1000 && v <= 1000; }
+    static bool can_div(const T &v) { return v != 0; }
+};
+// default equality, but values so large that +1 / -1 is not representable: ++ leaves the value unchanged and must still notify
+struct BigFloatDom {
+    using T = float; using Eq = std::equal_to<float>; static constexpr const char *name = "bigfloat"; static constexpr bool arithmetic = true, default_eq = true;
+    static std::vector<T> values() { return {16777216.0f, 1.0f, -16777216.0f, 2.0f}; }
+    static std::vector<T> initials() { return {16777216.0f, -16777216.0f, 16777215.0f}; }
+    static Eq eq() { return {}; }
+    static bool in_bounds(const T &v) { return std::fabs(v) <= 134217728.0f && v == std::floor(v); }
     static bool can_div(const T &v) { return v != 0.0f; }
 };
 const std::string LONGSTR(40, 'L');
@@ -179,9 +207,10 @@ template<typename D> void bfs(int maxdepth) {
 void explore() {
     int depth = thorough() ? 8 : 6;
     bfs<IntDom>(depth); bfs<FloatDom>(depth); bfs<StrDom>(thorough() ? 6 : 5);
+    bfs<WideFloatDom>(depth - 1); bfs<BucketDom>(depth - 1); bfs<BigFloatDom>(depth - 1);
     shm->validated = shm->transitions;
     sx::detail(fmt("breadth-first search over histories of =, +=, -=, *=, /=, ++x, x++, --x, x--, apply(identity/set/add), subscribe, unsubscribe (2 subscriber slots) from several initial values for Observable<int>, "
-                   "Observable<float, NearEq(0.5)> and Observable<std::string>; states are merged on (stored value, subscriber set and order, values last seen by the subscribers); every state reachable within depth %d is expanded "
+                   "Observable<float, NearEq(0.5)>, Observable<std::string>, and (one level shallower) Observable<float, NearEq(1.5)> and Observable<int, same-bucket-of-4> whose equality is coarser than one ++/-- step and Observable<float> around 2^24 where +-1 is not representable; states are merged on (stored value, subscriber set and order, values last seen by the subscribers); every state reachable within depth %d is expanded "
                    "(value magnitude bounded so that int/float arithmetic stays exact)", depth));
 }
 
@@ -192,7 +221,8 @@ void replay(const std::string &hist) {
     if (!parse_ops(hist.substr(hist.find(':') + 1), h)) { violation("replay:parse", "cannot parse ops in " + hist); return; }
     auto go = [&](auto sys) { bool okp; if (h.empty()) { sys.step(init, {}, nullptr, okp); return; } Op last = h.back(); std::vector<Op> pre(h.begin(), h.end() - 1); sys.step(init, pre, &last, okp); };
     std::string t = ty;
-    if (t == "int") go(Sys<IntDom>{}); else if (t == "float") go(Sys<FloatDom>{}); else go(Sys<StrDom>{});
+    if (t == "int") go(Sys<IntDom>{}); else if (t == "float") go(Sys<FloatDom>{}); else if (t == "widefloat") go(Sys<WideFloatDom>{}); else if (t == "bucketint") go(Sys<BucketDom>{});
+    else if (t == "bigfloat") go(Sys<BigFloatDom>{}); else go(Sys<StrDom>{});
 }
 }  // namespace
 
